@@ -277,21 +277,27 @@ struct Case {
     d: usize,
     pts: Vec<Vec<f64>>,
     ws: Vec<i64>,
-    /// weights are ws * 2^wexp (exact in f64)
+    /// weight i is ws[i] * 2^(wexp + wsh[i]) (exact in f64)
     wexp: i32,
+    wsh: Vec<u32>,
+    /// number of MultiJagged::partition calls running at the same time as this one (0 = alone)
+    conc: usize,
     k: usize,
     max_iter: usize,
     pool: usize,
     blk: usize,
 }
 
-fn gen_case(r: &mut Rng, tier: &str) -> Case {
+fn gen_case(r: &mut Rng, tier: &str, allow_conc: bool) -> Case {
     let big = tier == "thorough";
     let d = if r.chance(1, 2) { 2 } else { 3 };
     let stream = match r.below(100) {
         // strictly positive weights far below f64::EPSILON (z * 2^-70): broke the balance bound before 70b7d46
         0..=4 => "tiny",
-        0..=77 => "main",
+        // strictly positive SUBNORMAL weights (multiples of 2^-1074, about 1e-320..1e-310), alone or next to
+        // a few normal ones (then some slab has a subnormal total although the global total is normal)
+        5..=10 => "subnormal",
+        11..=77 => "main",
         78..=87 => "zeros",
         88..=94 => "more_parts",
         95..=97 => "iter0",
@@ -304,10 +310,46 @@ fn gen_case(r: &mut Rng, tier: &str) -> Case {
         _ => r.range(49, if big { 260 } else { 100 }) as usize,
     };
     let n = if stream == "main" || stream == "tiny" { n.max(1) } else { n };
+    let n = if stream == "subnormal" { n.max(4) } else { n };
     // exact power-of-two scaling of the weights: harmless for the algorithm except far below f64::EPSILON
-    let wexp = if stream == "tiny" { -70 } else { *r.pick(&[0, 0, 0, 0, 0, 0, 10, -10, -30, 3]) };
+    let wexp = match stream {
+        "tiny" => -70,
+        "subnormal" => -1074,
+        _ => *r.pick(&[0, 0, 0, 0, 0, 0, 10, -10, -30, 3]),
+    };
     let (pf, pts) = gen_points(r, n, d);
-    let (wf, ws) = gen_weights(r, n, stream == "zeros");
+    let (mut wf, mut ws) = gen_weights(r, n, stream == "zeros");
+    let mut wsh = vec![0u32; n];
+    let mut mixed = false;
+    if stream == "subnormal" {
+        // mantissas of 10..45 bits: 1e-320 .. 1.7e-310
+        match r.below(4) {
+            0 => {
+                let c = 1i64 << r.range(10, 44);
+                ws = vec![c + r.range(0, 1000); n];
+                wf = "sub_uniform";
+            }
+            1 => {
+                ws = (0..n).map(|_| r.range(1 << 10, 1 << 45)).collect();
+                wf = "sub_random";
+            }
+            2 => {
+                ws = (0..n).map(|_| 1i64 << r.range(10, 44)).collect();
+                wf = "sub_skewed";
+            }
+            _ => {
+                // a few normal weights (1..9) among subnormal ones
+                ws = (0..n).map(|_| r.range(1 << 10, 1 << 40)).collect();
+                for _ in 0..r.range(1, 3) {
+                    let i = r.below(n as u64) as usize;
+                    ws[i] = r.range(1, 9);
+                    wsh[i] = 1074;
+                }
+                wf = "sub_mixed_with_normal";
+                mixed = true;
+            }
+        }
+    }
     let mut k = match r.below(8) {
         0 => 1,
         1 => 2,
@@ -323,14 +365,25 @@ fn gen_case(r: &mut Rng, tier: &str) -> Case {
         k = r.range(2, 40) as usize;
     }
     let mut max_iter = r.range(1, 4) as usize;
+    if mixed {
+        // more slabs than normal weights, and a second level that has to cut the subnormal slabs
+        k = k.max(r.range(4, 12) as usize);
+        max_iter = max_iter.max(2);
+    }
     match stream {
         "more_parts" => k = n + 1 + r.below(6) as usize,
         "iter0" => max_iter = 0,
         "parts0" => k = 0,
         _ => {}
     }
-    let pool = *r.pick(&[1usize, 2, 4, 8, 16]);
+    let mut pool = *r.pick(&[1usize, 2, 4, 8, 16]);
     let blk = r.range(1, 5) as usize;
+    // concurrency stream: this call runs while one or two other MultiJagged::partition calls run
+    let mut conc = 0;
+    if allow_conc && n >= 24 && k >= 2 && max_iter >= 1 && r.chance(1, 5) {
+        conc = r.range(1, 2) as usize;
+        pool = *r.pick(&[0usize, 1, 2, 4]); // 0 = rayon's global pool, shared by the simultaneous calls
+    }
     Case {
         family: format!("{}/{}", stream, pf),
         wfamily: wf.to_string(),
@@ -338,11 +391,30 @@ fn gen_case(r: &mut Rng, tier: &str) -> Case {
         pts,
         ws,
         wexp,
+        wsh,
+        conc,
         k,
         max_iter,
         pool,
         blk,
     }
+}
+
+/// x * 2^e without intermediate overflow/underflow surprises (exact when the result is representable)
+fn scale2(mut x: f64, mut e: i32) -> f64 {
+    while e > 500 {
+        x *= 2f64.powi(500);
+        e -= 500;
+    }
+    while e < -500 {
+        x *= 2f64.powi(-500);
+        e += 500;
+    }
+    x * 2f64.powi(e)
+}
+
+fn weights_f64(c: &Case) -> Vec<f64> {
+    c.ws.iter().zip(c.wsh.iter()).map(|(w, s)| scale2(*w as f64, c.wexp + *s as i32)).collect()
 }
 
 // -------------------------------------------------------------------- running
@@ -351,7 +423,7 @@ type PartRes = Guarded<Result<Vec<usize>, coupe::Error>>;
 
 fn run_impl<const D: usize>(c: &Case, pool: usize) -> PartRes {
     let points: Vec<PointND<D>> = c.pts.iter().map(|p| PointND::<D>::from_iterator(p.iter().cloned())).collect();
-    let weights: Vec<f64> = c.ws.iter().map(|w| *w as f64 * 2f64.powi(c.wexp)).collect();
+    let weights: Vec<f64> = weights_f64(c);
     let (k, m) = (c.k, c.max_iter);
     guarded(pool, Duration::from_secs(20), move || {
         let mut p = vec![usize::MAX; points.len()];
@@ -362,9 +434,91 @@ fn run_impl<const D: usize>(c: &Case, pool: usize) -> PartRes {
     })
 }
 
+/// One partition call of the case as a reusable job.
+fn make_job(c: &Case) -> Box<dyn Fn() -> Vec<usize> + Send + Sync> {
+    fn job<const D: usize>(c: &Case) -> Box<dyn Fn() -> Vec<usize> + Send + Sync> {
+        let points: Vec<PointND<D>> = c.pts.iter().map(|p| PointND::<D>::from_iterator(p.iter().cloned())).collect();
+        let weights = weights_f64(c);
+        let (k, m) = (c.k, c.max_iter);
+        Box::new(move || {
+            let mut p = vec![usize::MAX; points.len()];
+            coupe::MultiJagged { part_count: k, max_iter: m }
+                .partition(&mut p, (&points[..], &weights[..]))
+                .unwrap();
+            p
+        })
+    }
+    if c.d == 2 {
+        job::<2>(c)
+    } else {
+        job::<3>(c)
+    }
+}
+
+const CONC_REPEAT: usize = 6;
+
+/// Runs the calls of `cases` at the same time, each from its own std thread
+/// (inside its own rayon pool, or the global one when pool = 0), CONC_REPEAT
+/// times in a row without waiting for the others.  Returns the outputs of
+/// the first case, or None when a thread did not answer in 60 s.
+fn run_concurrent(cases: &[&Case]) -> Option<Vec<Result<Vec<usize>, String>>> {
+    use std::sync::{mpsc, Arc, Barrier};
+    let barrier = Arc::new(Barrier::new(cases.len()));
+    let (tx, rx) = mpsc::channel();
+    for (t, c) in cases.iter().enumerate() {
+        let job = make_job(c);
+        let pool = c.pool;
+        let barrier = barrier.clone();
+        let tx = tx.clone();
+        std::thread::Builder::new()
+            .stack_size(64 << 20)
+            .spawn(move || {
+                let body = || {
+                    barrier.wait();
+                    (0..CONC_REPEAT)
+                        .map(|_| {
+                            catch_unwind(AssertUnwindSafe(|| job())).map_err(|e| {
+                                e.downcast_ref::<&str>().map(|s| s.to_string()).or_else(|| e.downcast_ref::<String>().cloned()).unwrap_or_else(|| "panic".into())
+                            })
+                        })
+                        .collect::<Vec<_>>()
+                };
+                let out = if pool == 0 {
+                    body()
+                } else {
+                    coupe::rayon::ThreadPoolBuilder::new().num_threads(pool).build().unwrap().install(body)
+                };
+                let _ = tx.send((t, out));
+            })
+            .unwrap();
+    }
+    let mut first = None;
+    for _ in 0..cases.len() {
+        match rx.recv_timeout(Duration::from_secs(60)) {
+            Ok((0, out)) => first = Some(out),
+            Ok(_) => {}
+            Err(_) => return None,
+        }
+    }
+    first
+}
+
+fn canon(p: &[usize]) -> Vec<usize> {
+    let mut seen: Vec<usize> = Vec::new();
+    p.iter()
+        .map(|x| match seen.iter().position(|y| y == x) {
+            Some(i) => i,
+            None => {
+                seen.push(*x);
+                seen.len() - 1
+            }
+        })
+        .collect()
+}
+
 fn sorts_of<const D: usize>(c: &Case, tree: &Node) -> Vec<(usize, Vec<usize>, Vec<usize>)> {
     let points: Vec<PointND<D>> = c.pts.iter().map(|p| PointND::<D>::from_iterator(p.iter().cloned())).collect();
-    let weights: Vec<f64> = c.ws.iter().map(|w| *w as f64 * 2f64.powi(c.wexp)).collect();
+    let weights: Vec<f64> = weights_f64(c);
     let mut perm: Vec<usize> = (0..points.len()).collect();
     let mut out = Vec::new();
     replay(tree, 0, &mut perm, &points, &weights, &mut out);
@@ -404,6 +558,21 @@ fn probe() {
     let m1 = (1..100_000_000usize).find(|m| root(2, *m) < 2);
     println!("smallest max_iter with root(2, max_iter) = 1: {m1:?}");
     // (2) strictly positive weights far below f64::EPSILON
+    // (3) the smallest subnormal weights: 4 ULPs are then 4 times the weight itself
+    for (unit, n) in [(1u64, 16usize), (1, 64), (3, 64), (1000, 64)] {
+        let points: Vec<PointND<2>> = (0..n).map(|i| PointND::<2>::new(i as f64, 0.0)).collect();
+        let w = f64::from_bits(unit);
+        let weights: Vec<f64> = vec![w; n];
+        let mut p = vec![usize::MAX; n];
+        coupe::MultiJagged { part_count: 2, max_iter: 1 }.partition(&mut p, (&points[..], &weights[..])).unwrap();
+        let c0 = p.iter().filter(|x| **x == p[0]).count();
+        println!(
+            "{n} points of weight {w:e} (= {unit} * 2^-1074), 2 parts, max_iter 1: sizes {} | {}; |load - total/2| / max weight = {}  (bound: < 2)",
+            c0,
+            n - c0,
+            (c0 as f64 - n as f64 / 2.0).abs()
+        );
+    }
     for scale in [1.0f64, 1e-12, 1e-15, 1e-16, 1e-17, 1e-20, 1e300, 1e308] {
         let n = 8usize;
         let points: Vec<PointND<2>> = (0..n).map(|i| PointND::<2>::new(i as f64, (i % 3) as f64)).collect();
@@ -439,9 +608,19 @@ fn main() {
         if a.tier == "thorough" { 150 } else { 100 },
     );
     let (mut hangs, mut panics, mut hook_panics, mut sort_entries, mut empty_parts) = (0usize, 0usize, 0usize, 0usize, 0usize);
+    let (mut conc_cases, mut conc_odd) = (0usize, 0usize);
     for idx in 0..a.cases {
         let mut r = rng.fork();
-        let c = gen_case(&mut r, &a.tier);
+        let c = gen_case(&mut r, &a.tier, true);
+        // companions of the concurrency stream: other inputs whose calls run at the same time
+        let companions: Vec<Case> = (0..c.conc)
+            .map(|_| loop {
+                let o = gen_case(&mut r, &a.tier, false);
+                if o.pts.len() >= 24 && o.k >= 2 && o.max_iter >= 1 {
+                    break o;
+                }
+            })
+            .collect();
         if let Some(o) = a.only {
             if o != idx {
                 continue;
@@ -455,10 +634,39 @@ fn main() {
             hook_panics += 1;
         }
         let root0 = (k as f32).powf(1. / m as f32).ceil() as usize;
-        let (res, seq) = if c.d == 2 {
-            (run_impl::<2>(&c, c.pool), run_impl::<2>(&c, 1))
+        let seq = if c.d == 2 { run_impl::<2>(&c, 1) } else { run_impl::<3>(&c, 1) };
+        let res: PartRes = if c.conc == 0 {
+            if c.d == 2 {
+                run_impl::<2>(&c, c.pool)
+            } else {
+                run_impl::<3>(&c, c.pool)
+            }
         } else {
-            (run_impl::<3>(&c, c.pool), run_impl::<3>(&c, 1))
+            conc_cases += 1;
+            let mut all: Vec<&Case> = vec![&c];
+            all.extend(companions.iter());
+            match run_concurrent(&all) {
+                None => Guarded::Hang,
+                Some(outs) => {
+                    // every output is a candidate; the one handed to the checkers is the first that is
+                    // not the partition of the undisturbed one-thread run (up to renaming, ids below k)
+                    let reference = match &seq {
+                        Guarded::Done(Ok(p)) => Some(canon(p)),
+                        _ => None,
+                    };
+                    let odd = outs.iter().position(|o| match o {
+                        Ok(p) => Some(canon(p)) != reference || p.iter().any(|x| *x >= c.k),
+                        Err(_) => true,
+                    });
+                    if odd.is_some() {
+                        conc_odd += 1;
+                    }
+                    match outs[odd.unwrap_or(0)].clone() {
+                        Ok(p) => Guarded::Done(Ok(p)),
+                        Err(m) => Guarded::Panic(m),
+                    }
+                }
+            }
         };
         match &res {
             Guarded::Hang => hangs += 1,
@@ -507,7 +715,14 @@ fn main() {
             "mk11 {}%nat [{}]%N {} {} {}%N {}%nat {}%nat {}%N {}%N [{}]%nat {} {}",
             c.d,
             pts_coq.join(";"),
-            coq_zlist(c.ws.iter().map(|x| *x as i128)),
+            format!(
+                "[{}]%Z",
+                c.ws.iter()
+                    .zip(c.wsh.iter())
+                    .map(|(w, s)| if *s == 0 { coq_z(*w as i128) } else { format!("({} * 2 ^ {})", w, s) })
+                    .collect::<Vec<_>>()
+                    .join(";")
+            ),
             format!("({})%Z", c.wexp),
             c.k,
             c.max_iter,
@@ -524,12 +739,14 @@ fn main() {
             .map(|p| format!("[{}]", p.iter().map(|x| format!("{:?}", x)).collect::<Vec<_>>().join(",")))
             .collect();
         let json = format!(
-            "{{\"weight_family\":\"{}\",\"dim\":{},\"points\":[{}],\"weights\":{},\"weight_exponent\":{},\"part_count\":{},\"max_iter\":{},\"pool\":{},\"scheme_leaves\":{},\"sort_replays\":{},\"impl\":{},\"impl_one_thread\":{}}}",
+            "{{\"weight_family\":\"{}\",\"dim\":{},\"points\":[{}],\"weights\":{},\"weight_exponent\":{},\"weight_extra_shifts\":{},\"simultaneous_calls\":{},\"part_count\":{},\"max_iter\":{},\"pool\":{},\"scheme_leaves\":{},\"sort_replays\":{},\"impl\":{},\"impl_one_thread\":{}}}",
             c.wfamily,
             c.d,
             pts_json.join(","),
             json_i64s(&c.ws),
             c.wexp,
+            json_usizes(&c.wsh.iter().map(|x| *x as usize).collect::<Vec<_>>()),
+            c.conc,
             c.k,
             c.max_iter,
             c.pool,
@@ -539,8 +756,10 @@ fn main() {
             json_impl_partition(&seq)
         );
         let key = format!(
-            "{}|{}|{:?}|{:?}|{}|{}|{}",
+            "{}|{:?}|{}|{}|{:?}|{:?}|{}|{}|{}",
             c.wexp,
+            c.wsh,
+            c.conc,
             c.d,
             c.pts.iter().map(|p| p.iter().map(|x| x.to_bits()).collect::<Vec<_>>()).collect::<Vec<_>>(),
             c.ws,
@@ -556,7 +775,7 @@ fn main() {
         }
     }
     w.finish(&format!(
-        "\"hangs\":{},\"panics\":{},\"hook_panics\":{},\"sort_replays\":{},\"cases_with_empty_parts\":{}",
-        hangs, panics, hook_panics, sort_entries, empty_parts
+        "\"hangs\":{},\"panics\":{},\"hook_panics\":{},\"sort_replays\":{},\"cases_with_empty_parts\":{},\"concurrent_cases\":{},\"concurrent_outputs_differing_from_the_solo_run\":{}",
+        hangs, panics, hook_panics, sort_entries, empty_parts, conc_cases, conc_odd
     ));
 }
